@@ -227,8 +227,99 @@ def bounded(tier, seed, procs):
                     expected=outcome.describe(spec), actual=outcome.describe(real),
                     functions=[f"EvaluationMapper.{getattr(type(e), 'mapper_method', 'map_foreign')}"]))
     b.exhaustive = True
-    runs = [b, cse_once(tier), containers_and_float(tier), evaluator_hooks(tier)]
+    runs = [b, cse_once(tier), containers_and_float(tier), evaluator_hooks(tier), environments(tier)]
     return runs
+
+
+def environments(tier):
+    """The environment is whatever mapping the caller hands over: its kind, and what it holds when the evaluation runs."""
+    import collections
+    import types
+    import pymbolic.primitives as p
+    from pymbolic.mapper.evaluator import CachedEvaluationMapper, EvaluationMapper, evaluate
+    b = BoundedRun("environments", rule="(a) the environment given as dict, OrderedDict, ChainMap (two layers), MappingProxyType, UserDict, a dict subclass whose __missing__ computes the "
+                   "values of names starting with 'n', and a read-only collections.abc.Mapping computing its values on demand: plain, memoizing and evaluate() return den's value in "
+                   "the equivalent dict, and a name the mapping does not resolve is the unknown-variable error naming it; (b) one plain EvaluationMapper kept across a sweep in which "
+                   "the caller rebinds, adds and removes names in the dict it handed over (expressions without common subexpressions, so nothing is memoized): every evaluation is "
+                   "den's value in the dict as it is at that moment; (c) sums of three to five float-valued quotients: the value is the left-to-right fold with + (known finding: "
+                   "builtin sum() compensates float rounding since Python 3.12)", bound="7 mapping kinds x 8 expressions x 3 entry points; 6 sweeps x 8 expressions; 40 float sums",
+                   functions=["EvaluationMapper.__init__", "EvaluationMapper.map_variable", "EvaluationMapper.map_sum", "evaluate"])
+    x, y = trees.X, trees.Y
+    n3, q = p.Variable("n3"), p.Variable("unbound")
+    exprs = [x, p.Sum((x, y)), p.Product((x, p.Sum((y, n3)))), p.Quotient(p.Sum((x, 1)), p.Sum((n3, 1))), p.If(p.Comparison(x, "<", y), n3, p.Power(y, 2)), p.Sum((x, q)),
+             p.Min((x, n3, y)), (x, p.FloorDiv(n3, 2))]
+    base = {"x": 3, "y": Fraction(5, 2), "n3": 7}
+
+    class Computing(dict):
+        def __missing__(self, key):
+            if key.startswith("n"):
+                return int(key[1:]) + 4
+            raise KeyError(key)
+
+    class Lazy(collections.abc.Mapping):
+        def __init__(self, d):
+            self._d = d
+
+        def __getitem__(self, k):
+            return self._d[k]
+
+        def __iter__(self):
+            return iter(self._d)
+
+        def __len__(self):
+            return len(self._d)
+    kinds = {"dict": lambda: dict(base), "OrderedDict": lambda: collections.OrderedDict(base), "ChainMap": lambda: collections.ChainMap({"x": 3}, {"y": Fraction(5, 2), "n3": 7, "x": 99}),
+             "MappingProxyType": lambda: types.MappingProxyType(dict(base)), "UserDict": lambda: collections.UserDict(base), "computing-dict": lambda: Computing(x=3, y=Fraction(5, 2)),
+             "lazy-mapping": lambda: Lazy(dict(base))}
+    entries = {"plain": lambda e, env: EvaluationMapper(env)(e), "cached": lambda e, env: CachedEvaluationMapper(env)(e), "evaluate": lambda e, env: evaluate(e, env)}
+    for kname, mk in kinds.items():
+        for e in exprs:
+            want = outcome.run(lambda: den(e, base))
+            for ename, f in entries.items():
+                got = outcome.run(lambda: f(e, mk()))
+                b.case(("kind", kname, repr(e), ename), nontrivial=kname != "dict", sample=dict(part="a", mapping=kname, expr=repr(e)[:80], entry=ename))
+                if not outcome.equivalent(got, want, None):
+                    b.fail(Failure("environments", f"part=mapping-kind mapping={kname} entry={ename} expr={e!r}", dict(kind="envs", part="a", mapping=kname, expr=trees.src(e), entry=ename),
+                                   expected=outcome.describe(want), actual=outcome.describe(got)[:200], functions=["EvaluationMapper.__init__", "EvaluationMapper.map_variable"]))
+    # (b) a sweep: the caller updates the dict it handed over between evaluations
+    sweeps = [[("set", "x", 5)], [("set", "x", -1), ("set", "y", 4)], [("del", "n3", None)], [("del", "n3", None), ("set", "n3", 2)], [("set", "unbound", 10)], [("set", "unbound", 1), ("del", "unbound", None), ("set", "x", 0)]]
+    for si, sweep in enumerate(sweeps):
+        for e in exprs:
+            env = dict(base)
+            m = outcome.run(lambda: EvaluationMapper(env))
+            steps = [None] + sweep
+            for ti, step in enumerate(steps):
+                if step is not None:
+                    if step[0] == "set":
+                        env[step[1]] = step[2]
+                    else:
+                        env.pop(step[1], None)
+                want = outcome.run(lambda: den(e, dict(env)))
+                got = outcome.run(lambda: m[1](e)) if m[0] == "val" else m
+                b.case(("sweep", si, repr(e), ti), nontrivial=ti > 0, sample=dict(part="b", sweep=repr(sweep), expr=repr(e)[:80], turn=ti))
+                if not outcome.equivalent(got, want, None):
+                    b.fail(Failure("environments", f"part=sweep sweep={sweep!r} turn={ti} expr={e!r} env={env!r}", dict(kind="envs", part="b", sweep=si, expr=trees.src(e), turn=ti),
+                                   expected=outcome.describe(want), actual=outcome.describe(got)[:200], functions=["EvaluationMapper.__init__", "EvaluationMapper.map_variable"]))
+                    break
+    # (c) float-valued operands of a sum
+    import random
+    rnd = random.Random(7)
+    sums = [[(1, 10), (2, 10), (3, 10)], [(1, 3), (1, 3), (1, 3), (1, 7)], [(1, 10)] * 5]
+    for _ in range(37):
+        sums.append([(rnd.randint(-9, 9), rnd.choice([3, 7, 10, 11, 13])) for _ in range(rnd.randint(3, 5))])
+    for terms in sums:
+        e = p.Sum(tuple(p.Quotient(a_, p.Variable("d%d" % i)) for i, (a_, _) in enumerate(terms)))
+        env = {"d%d" % i: d_ for i, (_, d_) in enumerate(terms)}
+        want = outcome.run(lambda: den(e, env))
+        for ename, f in entries.items():
+            got = outcome.run(lambda: f(e, dict(env)))
+            b.case(("floatsum", repr(terms), ename), nontrivial=True, sample=dict(part="c", terms=repr(terms), entry=ename))
+            if not (got[0] == want[0] == "val" and type(got[1]) is type(want[1]) and got[1] == want[1]):
+                vals = [a_ / d_ for a_, d_ in terms]
+                cause = "cause=float-sum-compensated " if got[0] == "val" and got[1] == sum(vals) and abs(got[1] - want[1]) <= 1e-15 * max(1.0, abs(want[1])) * len(vals) else ""
+                b.fail(Failure("environments", f"{cause}part=float-sum entry={ename} terms={terms!r}", dict(kind="envs", part="c", terms=repr(terms), entry=ename),
+                               expected=outcome.describe(want), actual=outcome.describe(got)[:200], functions=["EvaluationMapper.map_sum"]))
+    return b
 
 
 def evaluator_hooks(tier):
@@ -517,4 +608,6 @@ def replay(case):
     if case.get("kind") == "cse-once":
         b = cse_once("quick")
         return any(f.case == case for f in b.failures)
+    if case.get("kind") == "envs":
+        return any(f.case == case for f in environments("quick").failures)
     raise ValueError(case)
